@@ -76,6 +76,11 @@ def viaP2(ch1, ch2, ch3, menu=(1, 2), end=5, order=("A", "P", "B")):
     return dict(family="viaP2", comps=[T("A", menu, outs=["o"]), P("P", outs=("o0", "o1")), T("B", menu, ins=["i0", "i1"])], links=[L("A", "o", "P", "i", ch1), L("P", "o0", "B", "i0", ch2), L("P", "o1", "B", "i1", ch3)], order=list(order), end=end)
 
 
+def viaPdup(ch1, ch2, ch3, menu=(1, 2), end=5, order=("A", "P", "B")):
+    """one output of a pull-based component linked twice to the same consumer"""
+    return dict(family="viaPdup", comps=[T("A", menu, outs=["o"]), P("P"), T("B", menu, ins=["i0", "i1"])], links=[L("A", "o", "P", "i", ch1), L("P", "o", "B", "i0", ch2), L("P", "o", "B", "i1", ch3)], order=list(order), end=end)
+
+
 def diamondP(menu=(1, 2), end=5, order=("A", "B", "P", "C"), ch=()):
     """two producers merged by a pull-based component"""
     return dict(family="diamondP", comps=[T("A", menu, outs=["o"]), T("B", menu, outs=["o"]), P("P", ins=("i", "j")), T("C", menu, ins=["i"])], links=[L("A", "o", "P", "i", ch), L("B", "o", "P", "j"), L("P", "o", "C", "i")], order=list(order), end=end)
